@@ -157,6 +157,7 @@ func checkC01(ctx *Ctx, r *Report, tier string) {
 	ruleBB11(r, ctors)
 	ruleBB12(ctx, r)
 	ruleBB13(ctx, r)
+	ruleBB14(ctx, r)
 	// BB-10: the loft's box (hull of both profile boxes) holds only if the profiles are mixed
 	// with a factor in [0, 1] everywhere (rule shared with C02 M10)
 	checkLoftMix(ctx, r, "BB-10")
@@ -1322,4 +1323,118 @@ func ruleBB7(ctx *Ctx, r *Report) {
 		r.check("BB-7", key, fn.Pos(), okAll, "with num = 2: each bound is the extremum over the operand box's vertices and their images under step;"+detail)
 	}
 	r.floor("BB-7", 2)
+}
+
+// ---------------------------------------------------------------- BB-14: rotate-copy boxes
+
+// ruleBB14: RotateCopy2D/3D evaluate the child at a point rotated about the axis into the first
+// sector; for one copy the sector is the whole plane and the map is the identity, so the box
+// has to reach the farthest corner of the child's box on every side of the axis. Decided on
+// the constructor's closed form, evaluated in float64 on child boxes in all quadrants: each
+// of ±X, ±Y of the result is at least the distance of the farthest corner from the axis, and
+// (3D) Z is the child's.
+func ruleBB14(ctx *Ctx, r *Report) {
+	for _, name := range []string{"RotateCopy3D", "RotateCopy2D"} {
+		fn := ctx.ssaFunc("sdf", name)
+		if fn == nil {
+			r.undecided("BB-14", name, 0, "not found")
+			continue
+		}
+		savedCap := termCap
+		termCap = 400000 // the fold over the box corners is a deep nest of choices
+		ev := newEval(ctx)
+		res, st := ev.evalRoot(fn)
+		termCap = savedCap
+		obj, ok := resultObject(res, st)
+		leaves := map[string]*Term{}
+		if ok {
+			leafTerms("", obj, leaves)
+		}
+		box := map[string]*Term{}
+		for k, t := range leaves {
+			for _, sfx := range []string{"Max.X", "Max.Y", "Max.Z", "Min.X", "Min.Y", "Min.Z"} {
+				if strings.HasSuffix(k, "."+sfx) && t != nil {
+					box[sfx] = t
+				}
+			}
+		}
+		if len(box) < 4 {
+			r.undecided("BB-14", name, fn.Pos(), "box not in closed form")
+			continue
+		}
+		atoms := map[string]bool{}
+		for _, t := range box {
+			t.Atoms(atoms)
+		}
+		bad := ""
+		n := 0
+		vals := []float64{-7, -2.5, -1, 0, 0.5, 3, 11}
+		for _, x0 := range vals {
+			for _, x1 := range vals {
+				for _, y0 := range vals {
+					for _, y1 := range vals {
+						if x1 < x0 || y1 < y0 {
+							continue
+						}
+						env := map[string]float64{}
+						for a := range atoms {
+							switch {
+							case strings.HasSuffix(a, "BoundingBox().Min.X"):
+								env[a] = x0
+							case strings.HasSuffix(a, "BoundingBox().Max.X"):
+								env[a] = x1
+							case strings.HasSuffix(a, "BoundingBox().Min.Y"):
+								env[a] = y0
+							case strings.HasSuffix(a, "BoundingBox().Max.Y"):
+								env[a] = y1
+							case strings.HasSuffix(a, "BoundingBox().Min.Z"):
+								env[a] = -4
+							case strings.HasSuffix(a, "BoundingBox().Max.Z"):
+								env[a] = 9
+							default:
+								env[a] = 1 // the number of copies
+							}
+						}
+						R := math.Hypot(math.Max(math.Abs(x0), math.Abs(x1)), math.Max(math.Abs(y0), math.Abs(y1)))
+						n++
+						for sfx, t := range box {
+							v, ok := evalFloat(t, env)
+							if !ok {
+								if bad == "" {
+									bad = " " + sfx + " cannot be evaluated"
+								}
+								continue
+							}
+							var want float64
+							okv := true
+							switch sfx {
+							case "Max.X", "Max.Y":
+								want = R
+								okv = v >= R*(1-1e-12)
+							case "Min.X", "Min.Y":
+								want = -R
+								okv = v <= -R*(1-1e-12)
+							case "Max.Z":
+								want = 9
+								okv = v >= 9
+							case "Min.Z":
+								want = -4
+								okv = v <= -4
+							}
+							if !okv && bad == "" {
+								bad = fmt.Sprintf(" child box [%g,%g]×[%g,%g]: %s is %g, the farthest corner needs %g", x0, x1, y0, y1, sfx, v, want)
+							}
+						}
+					}
+				}
+			}
+		}
+		r.Counts["rotatecopy_boxes"] += n
+		if strings.Contains(bad, "cannot be evaluated") {
+			r.undecided("BB-14", name, fn.Pos(), "closed form of the box outside the evaluated fragment:"+bad)
+			continue
+		}
+		r.check("BB-14", name+"|box-reaches-the-farthest-corner-on-every-side", fn.Pos(), bad == "", "±X, ±Y of the box ≥ distance of the farthest child-box corner from the axis (float64 evaluation of the closed form on child boxes in all quadrants);"+bad)
+	}
+	r.floor("BB-14", 2)
 }
